@@ -134,7 +134,7 @@ def accessor(ctx, letters):
                       attrs={"nodata": nd}, name="band")
     sgvals = np.array([-np.inf, -3.0, -0.5, 0.0, 2.5, 5.0])
     ncubes = 6 if ctx.thorough() else 2
-    for p_env in (None, 0.8):
+    for p_env in (None, 0.8, 0.5):
         variant = "ws2dgu" if p_env is None else "ws2dpgu"
         # constant s
         for s in (0.5, 100.0):
